@@ -17,7 +17,8 @@ def run(ctx):
     r = ctx.rng
     ctx.rule = ('type subsets (all single types, all pairs, random larger subsets of the registered types; boxes only in observation spaces) x colour subsets '
                 'x shapes >= 2x2 (odd width for observations) x member states covering every object, status, colour, pose and held item x 3 '
-                'representations; gym layer: every step of trajectories of the 21 shipped environments; non-trivial = distinct (space, member, representation)')
+                'representations; spaces declared with lists, tuples and lists the caller extends afterwards; user types with 2..7 statuses and instance colours; gym layer: every step of '
+                'trajectories of the 21 shipped environments; non-trivial = distinct (space, member, representation)')
     reqs, metas = [], []
     subsets = [[t] for t in rsuite.REPRESENTABLE] + [list(c) for c in itt.combinations(rsuite.REPRESENTABLE, 2)]
     for _ in range(60 if ctx.tier == 'quick' else 600):
